@@ -36,6 +36,7 @@ def pool(cfg, A=10):
         H("h1", 1, p2, N, h0 + pd + 20, pd + 20),
         H("h1", 1, N, N, h0 + pd + 30, pd + 30),
         H("h1", 1, p1 + 1, N + 1, h0 + pd + 5, pd + 5),
+        H("h1", 1, N, N + 5, h0 + pd + 35, pd + 35),     # declares a larger total than it (or the set) ever brings
     ]
     # three parts of which no two fund the set: staggered arrivals of an incomplete set
     t1 = max(1, N // 3)
